@@ -8,6 +8,10 @@ import Np.Model.Index
 import Np.Model.Key
 import Np.Model.Compare
 import Np.Model.Dims
+import Np.Model.Grad
+import Np.Model.CallArr
+import Np.Model.Align
+import Np.Model.Construct
 /-! line-protocol driver: one JSON case per line on stdin, the model's answer per line on stdout -/
 open Lean Np Np.Shape
 
@@ -60,8 +64,13 @@ def showArr (a : Arr CRat) : Json :=
     ("terms", Json.arr (a.poly.terms.map fun t =>
       Json.arr #[toJson t.1, Json.arr (t.2.toList.map showCoef).toArray]).toArray)]
 
+def errName : Err → String
+  | .construction => "construction" | .featureNotSupported => "featureNotSupported" | .typeError => "typeError"
+  | .keyError => "keyError" | .valueError => "valueError" | .overflow => "overflow" | .decode => "decode"
+  | .assertion => "assertion" | .uninit => "uninit" | .internal => "internal"
+
 def showErr (e : Err) : Json :=
-  Json.mkObj [("status", "err"), ("kind", toString (repr e))]
+  Json.mkObj [("status", "err"), ("kind", errName e)]
 
 partial def parseExpr (j : Json) : E Expr := do
   match j with
@@ -238,6 +247,69 @@ def runCase (j : Json) : E Json := do
     if h : a.poly.terms.length * size a.shape = size shape then
       pure (showArr ⟨shape, h ▸ d⟩)
     else throw "decompose: size mismatch"
+  | "deriv" =>
+    let a ← parseArr (← j.getObjVal? "a")
+    let vars ← jNats (← j.getObjVal? "vars")
+    if vars.any (fun v => v ≥ a.poly.names.length) then pure (showErr .valueError)
+    else pure (showArr ⟨a.shape, derivativeMany rn vars a.poly⟩)
+  | "gradient" =>
+    let a ← parseArr (← j.getObjVal? "a")
+    let g := gradient rc rn a.poly
+    let shape := a.poly.names.length :: a.shape
+    if h : ((List.range a.poly.names.length).map fun j => derivative rn j a.poly).length * size a.shape = size shape then
+      pure (showArr ⟨shape, h ▸ g⟩)
+    else throw "gradient: size mismatch"
+  | "hessian" =>
+    let a ← parseArr (← j.getObjVal? "a")
+    let g := gradient rc rn a.poly
+    let g' : Poly _ := alignIndet (sortDedup natLt (g.names ++ a.poly.names)) g
+    let hs := gradient rc rn g'
+    let shape := g'.names.length :: a.poly.names.length :: a.shape
+    if h : ((List.range g'.names.length).map fun j => derivative rn j g').length *
+        (((List.range a.poly.names.length).map fun j => derivative rn j a.poly).length * size a.shape) = size shape then
+      pure (showArr ⟨shape, h ▸ hs⟩)
+    else throw "hessian: size mismatch"
+  | "call" =>
+    let a ← parseArr (← j.getObjVal? "a")
+    let args ← (← jList (← j.getObjVal? "args")).mapM fun x =>
+      match x with
+      | .null => pure (none : Option (Arr CRat))
+      | v => do pure (some (← parseArr v))
+    let kwargs ← (← jList (← j.getObjVal? "kwargs")).mapM fun kv => do
+      match ← jList kv with
+      | [k, v] => pure ((← jNat k), (← parseArr v))
+      | _ => throw "bad kwarg"
+    match bindArgs a.poly.names args kwargs with
+    | none => pure (showErr .typeError)
+    | some params =>
+      match callArr rc rn a params with
+      | .error e => pure (showErr e)
+      | .array shape vals => pure (Json.mkObj [("status", "ok"), ("kind", "array"), ("shape", toJson shape),
+          ("value", Json.arr (vals.map showCoef).toArray)])
+      | .poly r => pure (showArr r)
+  | "align" =>
+    let which ← (← j.getObjVal? "which").getStr?
+    let ps ← (← jList (← j.getObjVal? "polys")).mapM parseArr
+    let r : Except Err (List (Arr CRat)) := match which with
+      | "shape" => alignShapeAll rc rn ps
+      | "indeterminants" => .ok (alignIndetAll ps)
+      | "exponents" => .ok (alignExpoAll ps)
+      | _ => alignPolynomialsAll rc rn ps
+    match r with
+    | .ok rs => pure (Json.mkObj [("status", "ok"), ("kind", "polys"), ("value", Json.arr (rs.map showArr).toArray)])
+    | .error e => pure (showErr e)
+  | "fromattr" =>
+    let shape ← jNats (← j.getObjVal? "shape")
+    let expos ← jNatRows (← j.getObjVal? "expos")
+    let cols ← (← jList (← j.getObjVal? "cols")).mapM fun c => do
+      mkVec (size shape) (← (← jList c).mapM parseCoef)
+    let names ← match (j.getObjVal? "names").toOption with
+      | some .null => pure none
+      | some nm => do pure (some (← jNats nm))
+      | none => pure none
+    match fromAttributes rc rn names expos cols with
+    | some p => pure (showArr ⟨shape, p⟩)
+    | none => pure (showErr .construction)
   | _ => throw s!"bad-op {op}"
 
 def step (line : String) : String :=
